@@ -203,7 +203,26 @@ def d4(rep, w):
                 roots.add(q[0][2] if q[0][0] == 'call' else str(q[0]))
         r.check(bool(mk) and roots == {'std::fmt::format'}, '%s: the new string is the output of format!' % nm.rsplit('::', 1)[-1],
                 '%s builds its string from %s: besides format!("{}", value) another conversion produces the text' % (nm, sorted(roots)), g.loc())
+    # ... and every string value these two make is that freshly formatted string (not one remembered from an earlier conversion: a cache
+    # keyed by `==` hands -0 the text of 0)
+    for nm in ('yarel::core::string_from', 'yarel::vm::Vm::format_string_impl'):
+        g = w.require_fn(nm, 'C19')
+        org = origins(g)
+        for b in g.blocks:
+            for s_ in b['s']:
+                rr = s_.get('r', {})
+                if rr.get('rv') == 'agg' and rr.get('adt') == VAL and rr.get('v') == 'ObjString':
+                    pl = op_place(rr['ops'][0])
+                    roots = {(q[0][2] if q[0][0] == 'call' else str(q[0]) + ' ' + ' '.join(t for t in q[1:] if not t.startswith('@') and t != '*')) for q in (org.get(pl['l'], ()) if pl else ())}
+                    if pl is not None and pl.get('p'):
+                        roots.add('a stored string (%s)' % '.'.join(e.get('n', '?') for e in pl['p'] if isinstance(e, dict)))
+                    r.check(roots == {'yarel::vm::Vm::new_gc_obj_string'}, '%s: the string value made is the one just formatted' % nm.rsplit('::', 1)[-1],
+                            '%s can produce a string that was not formatted from this value (%s): a remembered text is reused for a number that merely compares equal' %
+                            (nm, sorted(roots)[:3]), g.loc(s_.get('sp')))
+    for nm in ('yarel::core::string_from', 'yarel::vm::Vm::format_string_impl', 'yarel::core::print'):
+        g = w.require_fn(nm, 'C19')
+        NUMERIC = {'f64', 'f32', 'isize', 'usize', 'i8', 'i16', 'i32', 'i64', 'i128', 'u8', 'u16', 'u32', 'u64', 'u128'}
         others = sorted({'%s<%s>' % ((callee_name(t) or '').rsplit('::', 1)[-1], ','.join(g.crate.tstr(a) for a in (t['f'].get('ra') or t['f'].get('a') or [])))
-                         for _, t in g.calls() if ('fmt::rt::Argument' in (callee_name(t) or '') or (callee_name(t) or '').endswith('::to_string'))} -
-                        {'new_display<value::Value>', 'new_display<&value::Value>'})
-        r.check(not others, '%s: Display for Value is the only formatter' % nm.rsplit('::', 1)[-1], '%s also formats through %s' % (nm, others), g.loc())
+                         for _, t in g.calls() if ('fmt::rt::Argument' in (callee_name(t) or '') or (callee_name(t) or '').endswith('::to_string'))
+                         and {g.crate.tstr(a).lstrip('&') for a in (t['f'].get('ra') or t['f'].get('a') or [])} & NUMERIC})
+        r.check(not others, '%s: no number is formatted except through Display for Value' % nm.rsplit('::', 1)[-1], '%s also formats a number through %s' % (nm, others), g.loc())
